@@ -15,7 +15,15 @@ HasSeats    == (RankRules \ {"IRV", "TopTwo", "DominatingSets", "Alaska"}) \cup 
 LacksRanking(q)  == q.rule \in RankRules /\ q.noranking
 HasTiedPos(q)    == q.rule \in STVRules \cup {"Alaska"} /\ \E r \in DOMAIN q.prof : ~Untied(r)
 NonIntWeight(q)  == q.rule = "PluralityVeto" /\ ~(\A r \in DOMAIN q.prof : RIsInt(q.prof[r]))
-BadScores(q)     == q.rule \in RatingRules /\ (q.unscored > 0 \/ ~Accepts(q.sprof, q.rcfg))
+BadRatingParams(q) == q.rule \in RatingRules /\
+                      LET c == q.rcfg IN
+                      \/ (c.rule \in {"GeneralRating", "Rating"} /\ ~RLt(R(0), c.L))
+                      \/ (c.rule \in {"GeneralRating", "Limited", "BlocPlurality"} /\ c.hasK /\ ~RLt(R(0), c.k))
+                      \/ (c.rule = "GeneralRating" /\ c.hasK /\ RLt(c.k, c.L))
+                      \/ (c.rule = "Limited" /\ RLt(R(c.m), c.k))
+(* the ballots are judged against the limits only when the limits themselves are admissible: a non-positive or inconsistent limit *)
+(* is a parameter error (ValueError), whatever the ballots then look like                                                          *)
+BadScores(q)     == q.rule \in RatingRules /\ ~BadRatingParams(q) /\ (q.unscored > 0 \/ ~Accepts(q.sprof, q.rcfg))
 TypeViolation(q) == LacksRanking(q) \/ HasTiedPos(q) \/ NonIntWeight(q) \/ BadScores(q)
 
 \* ---- parameters (ValueError)
@@ -23,12 +31,6 @@ SeatsOutOfRange(q) == q.rule \in HasSeats /\ (q.m < 1 \/ q.m > q.n)
 TooFewForTopTwo(q) == q.rule = "TopTwo" /\ q.n < 2
 AlaskaStages(q)    == q.rule = "Alaska" /\ (q.m1 <= 0 \/ q.m <= 0 \/ q.m1 < q.m \/ q.m1 > q.n)
 BadVector(q)       == q.rule \in {"Borda", "score_profile_from_rankings", "validate_score_vector"} /\ ~ValidVec(q.vec)
-BadRatingParams(q) == q.rule \in RatingRules /\
-                      LET c == q.rcfg IN
-                      \/ (c.rule \in {"GeneralRating", "Rating"} /\ ~RLt(R(0), c.L))
-                      \/ (c.rule \in {"GeneralRating", "Limited", "BlocPlurality"} /\ c.hasK /\ ~RLt(R(0), c.k))
-                      \/ (c.rule = "GeneralRating" /\ c.hasK /\ RLt(c.k, c.L))
-                      \/ (c.rule = "Limited" /\ RLt(R(c.m), c.k))
 UnknownQuota(q)    == q.rule \in STVRules \cup {"Alaska"} /\ q.quota \notin {"droop", "hare"}
 (* generators / helpers: the harness builds the arguments that violate exactly the named precondition *)
 RefusedGeneratorRequests == {"props_sum_above", "props_sum_below", "props_sum_gross", "cohesion_sum_above", "cohesion_sum_gross",
